@@ -27,7 +27,7 @@
    arbitrary here, so generated ids of rebuilt siblings may collide).
    For configurators the assignment is non-negative (forall i, 0 <= env i): cc.Any's nested form
    Any(default, Any(rest)) equals the flat disjunction the document states only over non-negative operands. *)
-Require Import Puan.Base Puan.Plog Puan.Sem Puan.Cons Puan.Json Puan.JsonFacts.
+Require Import Puan.Base Puan.Plog Puan.Sem Puan.Cons Puan.Json Puan.JsonFacts Puan.JsonLink.
 Open Scope list_scope.
 Open Scope string_scope.
 Open Scope Z_scope.
@@ -266,30 +266,34 @@ Proof.
 Qed.
 Print Assumptions C16_cfg_ids_refuted.
 
-(* finding D15, evaluation-changing face — the guard all_unmerged is NECESSARY (same root cause as the id instability,
-   plus All.__init__'s len(set(..))):
+(* the guards all_unmerged / stingy_unmerged hold for EVERY document since fix D16 (All counts every operand it was
+   given; before, All.__init__ used len(set(..)) and two arguments rebuilt with equal ids lowered the threshold):
+   the hypotheses `all_unmerged .. = true` / `stingy_unmerged .. = true` of the theorems above can always be discharged *)
+Theorem C16_guards_hold :
+  forall (genid : genid_t) (cfg : bool) (n : nat) (j : json),
+    all_unmerged genid cfg n j = true /\ stingy_unmerged genid n j = true.
+Proof. intros genid cfg n j. split; [exact (all_unmerged_true genid cfg n j)|exact (stingy_unmerged_true genid n j)]. Qed.
+Print Assumptions C16_guards_hold.
+
+(* regression for the evaluation-changing face finding D15 had before fix D16:
    T = All(AtLeast(2,[a,b],sign=+), AtLeast(2,[a,b]), y).  The two AtLeast children have different generated ids (the
-   sign argument differs), so the model is valid and has value 3; after the round trip both are rebuilt without a sign
-   argument, get the same id, All's set() merges them and the value becomes 2: at a=b=1, y=0 the original is 0 and the
-   round-tripped model is 1.  Replayed on the real code: evaluate gives (0,0) before and (1,1) after. *)
+   sign argument differs); after the round trip both are rebuilt without a sign argument and get the same id (that is
+   still finding D15: generated ids are not stable), but the value of T stays 3 and the evaluation is unchanged
+   (with len(set(..)) it dropped to 2 and the round-tripped model was 1 at a=b=1, y=0 where the original is 0). *)
 Definition c16_mf : form :=
   FAll (Some ("T", (0, 1))) [FAtLeast None 2 (Some 1) [FLeaf "a" 0 1; FLeaf "b" 0 1]; FAtLeast None 2 None [FLeaf "a" 0 1; FLeaf "b" 0 1]; FLeaf "y" 0 1].
 Definition c16_menv : ident -> Z := fun i => if String.eqb i "y" then 0 else 1.
-Theorem C16_merge_refuted :
-  exists (genid : genid_t) (f : form) (env : ident -> Z) (j : json) (p' : prop),
-    jwf genid false f /\ xnor_leaves f /\ fok env f /\
-    to_json genid 10 (build genid f) = Some j /\ from_json genid false 10 j = Some p' /\
-    all_unmerged genid false 10 j = false /\
-    value_of (build genid f) = 3 /\ value_of p' = 2 /\
-    eval env (build genid f) = 0 /\ eval env p' = 1.
+Example C16_merge_repaired :
+  exists (j : json) (p' : prop),
+    to_json c16_g 10 (build c16_g c16_mf) = Some j /\ from_json c16_g false 10 j = Some p' /\
+    value_of (build c16_g c16_mf) = 3 /\ value_of p' = 3 /\
+    map id_of (children (build c16_g c16_mf)) <> map id_of (children p') /\
+    eval c16_menv (build c16_g c16_mf) = 0 /\ eval c16_menv p' = 0.
 Proof.
-  exists c16_g, c16_mf, c16_menv. eexists. eexists.
-  split; [unfold c16_mf; cbn [jwf]; repeat split; vm_compute; reflexivity|]. split; [vm_compute; tauto|].
-  split; [unfold c16_mf; cbn [fok]; repeat split; try (vm_compute; discriminate); auto|].
-  split; [vm_compute; reflexivity|]. split; [vm_compute; reflexivity|].
-  vm_compute. auto 10.
+  eexists. eexists. split; [vm_compute; reflexivity|]. split; [vm_compute; reflexivity|].
+  vm_compute. repeat split; try reflexivity. intros H; discriminate.
 Qed.
-Print Assumptions C16_merge_refuted.
+Print Assumptions C16_merge_repaired.
 
 (* Non-vacuity: R = Imply(All(x, Any(a,b)), AtLeast(1, [k:(-3,3), Xor(a,b), XNor(c,d)], sign=-1), id="R") — nested,
    explicit non-default sign, integer leaf, explicit and generated ids — meets every hypothesis of C16_sem_build; the
